@@ -120,7 +120,7 @@ pub fn gen(tier: &str, seed: u64, out: &mut dyn FnMut(Value)) {
     let thorough = tier == "thorough";
     let instances = if thorough { 32 } else { 8 };
     // template sets: up to 3 templates; strings: up to 4 pieces. Exhaustive over pieces for a sample of sets.
-    let n_sets = if thorough { 600 } else { 60 };
+    let n_sets = if thorough { 3000 } else { 240 };
     for _ in 0..n_sets {
         let k = rng.below(4);
         let mut names: Vec<&str> = NAMES.to_vec();
@@ -158,7 +158,7 @@ pub fn gen(tier: &str, seed: u64, out: &mut dyn FnMut(Value)) {
         out(json!({"op": "tpl_replace", "tpls": tpls, "rule": rule, "instances": 64, "tag": "replace: witnesses", "nt": true}));
     }
     // the programmatic API: insert / extend sequences with redefinitions; the rule shows which text survived
-    let n = if thorough { 20000 } else { 2000 };
+    let n = if thorough { 100000 } else { 8000 };
     for _ in 0..n {
         let len = 1 + rng.below(6);
         let mut calls = vec![];
@@ -180,7 +180,7 @@ pub fn gen(tier: &str, seed: u64, out: &mut dyn FnMut(Value)) {
         out(json!({"op": "tpl_api", "calls": calls, "rule": rule, "tag": "insert / extend sequences", "nt": true}));
     }
     // loads: sequences of calls, each a list of documents, each a map name -> text
-    let n = if thorough { 20000 } else { 2000 };
+    let n = if thorough { 100000 } else { 8000 };
     for _ in 0..n {
         let ncalls = 1 + rng.below(3);
         let mut calls = vec![];
